@@ -5,12 +5,14 @@ import (
 	"errors"
 	"fmt"
 	"strings"
+	"time"
 
 	smtp "github.com/emersion/go-smtp"
 
 	"verifharness/core"
 	"verifharness/rec"
 	"verifharness/ref"
+	"verifharness/wire"
 )
 
 // C16 — a message written through the client arrives intact at a go-smtp backend.
@@ -24,6 +26,8 @@ type c16Case struct {
 	Reject bool    `json:"reject"`
 	Mode   srvMode `json:"mode"`
 	NRcpt  int     `json:"nrcpt"`
+	WT     bool    `json:"wt"`     // Server.WriteTimeout set (ReadTimeout unset) and "time passes" during the body: any read deadline the server armed is fired
+	Second bool    `json:"second"` // a second message with other recipients follows on the same connection
 }
 
 func init() {
@@ -58,7 +62,8 @@ func c16Run(ctx *core.Ctx) {
 				parts = []string{parts[idx%4], parts[(idx+1)%4], parts[(idx+2)%4]}
 			}
 			for pi, pt := range parts {
-				c := c16Case{Body: body, BodyQ: fmt.Sprintf("%q", body), Part: pt, Reject: (idx+pi)%2 == 0, Mode: mode, NRcpt: 1 + idx%3}
+				c := c16Case{Body: body, BodyQ: fmt.Sprintf("%q", body), Part: pt, Reject: (idx+pi)%2 == 0, Mode: mode, NRcpt: 1 + idx%3,
+					WT: (idx+pi)%5 == 2, Second: (idx+pi)%4 == 1}
 				switch pt {
 				case "split":
 					if len(body) < 2 {
@@ -111,8 +116,12 @@ func c16Exec(ctx *core.Ctx, c c16Case) {
 			nontrivial = true
 		}
 	}
-	ctx.Eval(fmt.Sprintf("%q|%s|%d|%v|%v|%s|%d", c.Body, c.Part, c.At, c.Cuts, c.Reject, c.Mode, c.NRcpt), nontrivial)
-	rig := newRig(c.Mode, nil)
+	ctx.Eval(fmt.Sprintf("%q|%s|%d|%v|%v|%s|%d|%v|%v", c.Body, c.Part, c.At, c.Cuts, c.Reject, c.Mode, c.NRcpt, c.WT, c.Second), nontrivial)
+	rig := newRig(c.Mode, func(s *smtp.Server) {
+		if c.WT {
+			s.WriteTimeout = time.Hour // virtual clock: never expires by itself
+		}
+	})
 	rig.BE.H.Data = func(sess int, r *rec.Reader, st smtp.StatusCollector) error {
 		r.ReadAll(97)
 		if c.Reject {
@@ -184,7 +193,15 @@ func c16Exec(ctx *core.Ctx, c c16Case) {
 	default:
 		segs = [][]byte{c.Body}
 	}
-	for _, s := range segs {
+	for si, s := range segs {
+		if c.WT && si == len(segs)/2 {
+			// more than WriteTimeout "elapses" while the client is writing the body: with
+			// ReadTimeout unset the server must not be waiting with a read deadline at all
+			p.Raw.WaitPeerIdle(wire.Watchdog)
+			if p.SrvEnd.FireReadDeadline() {
+				rig.Log.Act("a read deadline was armed although ReadTimeout is 0; fired it")
+			}
+		}
 		if _, err := w.Write(s); err != nil {
 			done()
 			fail("C16:write", "Write failed: "+err.Error())
@@ -200,13 +217,54 @@ func c16Exec(ctx *core.Ctx, c c16Case) {
 			wroteAfter = append(wroteAfter, e.A)
 		}
 	}
+	// optional second message with a different recipient list
+	var rcpts2 []string
+	var closeErr3 error
+	var statuses2 []st
+	if c.Second {
+		if err := cl.Mail("sender16b@x.test", nil); err != nil {
+			done()
+			fail("C16:second-message", "Mail for the second message failed: "+err.Error())
+			return
+		}
+		for i := 0; i < 1+(c.NRcpt%2); i++ {
+			rc := fmt.Sprintf("other16-%d@x.test", i)
+			rcpts2 = append(rcpts2, rc)
+			if err := cl.Rcpt(rc, nil); err != nil {
+				done()
+				fail("C16:second-message", "Rcpt for the second message failed: "+err.Error())
+				return
+			}
+		}
+		var w2 interface {
+			Write([]byte) (int, error)
+			Close() error
+		}
+		var err error
+		if c.Mode.lmtp() {
+			w2, err = cl.LMTPData(func(rcpt string, status *smtp.SMTPError) { statuses2 = append(statuses2, st{rcpt, status}) })
+		} else {
+			w2, err = cl.Data()
+		}
+		if err != nil {
+			done()
+			fail("C16:second-message", "Data for the second message failed: "+err.Error())
+			return
+		}
+		w2.Write([]byte("second message body\r\n"))
+		closeErr3 = w2.Close()
+	}
 	quitErr := cl.Quit()
 	done()
 	ev := rig.Log.Events()
 	ctx.Add("backend_events", countBackendEvents(ev))
 	des := dataEnds(ev)
-	if len(des) != 1 {
-		fail("C16:data-calls", fmt.Sprintf("%d Data calls for one message", len(des)))
+	wantCalls := 1
+	if c.Second {
+		wantCalls = 2
+	}
+	if len(des) != wantCalls {
+		fail("C16:data-calls", fmt.Sprintf("%d Data calls for %d message(s)", len(des), wantCalls))
 		return
 	}
 	want := ref.DotWriterNormalise(c.Body)
@@ -225,7 +283,47 @@ func c16Exec(ctx *core.Ctx, c c16Case) {
 	for _, e := range rcs {
 		gotR = append(gotR, e.A)
 	}
-	if len(mails) != 1 || mails[0].A != from || strings.Join(gotR, ",") != strings.Join(rcpts, ",") {
+	if c.Second {
+		// split the recipient callbacks at the second Mail
+		var r1, r2 []string
+		seenMail := 0
+		for _, e := range ev {
+			if e.Ph != "b" {
+				continue
+			}
+			if e.Kind == "Mail" {
+				seenMail++
+			}
+			if e.Kind == "Rcpt" {
+				if seenMail <= 1 {
+					r1 = append(r1, e.A)
+				} else {
+					r2 = append(r2, e.A)
+				}
+			}
+		}
+		if len(mails) != 2 || mails[1].A != "sender16b@x.test" || strings.Join(r2, ",") != strings.Join(rcpts2, ",") || des[1].A != "second message body\r\n" {
+			fail("C16:second-message-envelope", fmt.Sprintf("second message: backend saw senders %v recipients %v body %q", len(mails), r2, des[1].A))
+			return
+		}
+		if c.Mode.lmtp() {
+			if len(statuses2) != len(rcpts2) {
+				fail("C16:second-message-result", fmt.Sprintf("second message: %d status callbacks for %d recipients", len(statuses2), len(rcpts2)))
+				return
+			}
+			for i, s := range statuses2 {
+				if s.rcpt != rcpts2[i] || (s.err == nil) == c.Reject {
+					fail("C16:second-message-result", fmt.Sprintf("second message: status #%d = (%s, %v)", i, s.rcpt, s.err))
+					return
+				}
+			}
+		} else if (closeErr3 == nil) == c.Reject {
+			fail("C16:second-message-result", fmt.Sprintf("second message: Close returned %v, server verdict reject=%v", closeErr3, c.Reject))
+			return
+		}
+		gotR = r1
+	}
+	if mails[0].A != from || strings.Join(gotR, ",") != strings.Join(rcpts, ",") {
 		fail("C16:envelope-differs", fmt.Sprintf("backend saw sender %v recipients %v", mails, gotR))
 		return
 	}
